@@ -31,40 +31,40 @@ pub proof fn lemma_uniform_product(d: Seq<F>, e: Seq<F>, i: int)
 }
 
 impl NonnegativeCone<F> {
-//@fn file=src/solver/core/cones/nonnegativecone.rs in="Cone<T> for NonnegativeCone<T>" name=rectify_equilibration rules=R1,R2 ret=r
+//@fn file=src/solver/core/cones/nonnegativecone.rs in="Cone<T> for NonnegativeCone<T>" name=rectify_equilibration rules=R1,R2 ret=r params=delta,e
 //@contract
     ensures !r, final(delta)@.len() == old(delta)@.len(), all_ones(final(delta)@),
 //@end
 }
 impl ZeroCone<F> {
-//@fn file=src/solver/core/cones/zerocone.rs in="Cone<T> for ZeroCone<T>" name=rectify_equilibration rules=R1,R2 ret=r
+//@fn file=src/solver/core/cones/zerocone.rs in="Cone<T> for ZeroCone<T>" name=rectify_equilibration rules=R1,R2 ret=r params=delta,e
 //@contract
     ensures !r, final(delta)@.len() == old(delta)@.len(), all_ones(final(delta)@),
 //@end
 }
 impl SecondOrderCone<F> {
-//@fn file=src/solver/core/cones/socone.rs in="Cone<T> for SecondOrderCone<T>" name=rectify_equilibration rules=R1,R2 ret=r
+//@fn file=src/solver/core/cones/socone.rs in="Cone<T> for SecondOrderCone<T>" name=rectify_equilibration rules=R1,R2 ret=r params=delta,e
 //@contract
     requires old(delta)@.len() == e@.len(),
     ensures r, uniform(final(delta)@, e@),
 //@end
 }
 impl ExponentialCone<F> {
-//@fn file=src/solver/core/cones/expcone.rs in="Cone<T> for ExponentialCone<T>" name=rectify_equilibration rules=R1,R2 ret=r
+//@fn file=src/solver/core/cones/expcone.rs in="Cone<T> for ExponentialCone<T>" name=rectify_equilibration rules=R1,R2 ret=r params=delta,e
 //@contract
     requires old(delta)@.len() == e@.len(),
     ensures r, uniform(final(delta)@, e@),
 //@end
 }
 impl PowerCone<F> {
-//@fn file=src/solver/core/cones/powcone.rs in="Cone<T> for PowerCone<T>" name=rectify_equilibration rules=R1,R2 ret=r
+//@fn file=src/solver/core/cones/powcone.rs in="Cone<T> for PowerCone<T>" name=rectify_equilibration rules=R1,R2 ret=r params=delta,e
 //@contract
     requires old(delta)@.len() == e@.len(),
     ensures r, uniform(final(delta)@, e@),
 //@end
 }
 impl GenPowerCone<F> {
-//@fn file=src/solver/core/cones/genpowcone.rs in="Cone<T> for GenPowerCone<T>" name=rectify_equilibration rules=R1,R2 ret=r
+//@fn file=src/solver/core/cones/genpowcone.rs in="Cone<T> for GenPowerCone<T>" name=rectify_equilibration rules=R1,R2 ret=r params=delta,e
 //@contract
     requires old(delta)@.len() == e@.len(),
     ensures r, uniform(final(delta)@, e@),
